@@ -15,10 +15,10 @@ Print Assumptions C20_name_filter.
 (* on objects neither filter rejects (acc: names accepted - for an added foreign key also the names of the reflected keys
    with the same signature, which is what identifies a foreign key; the include_object calls the unfiltered comparison
    makes for the operation's table and object say yes) the filtered and the unfiltered comparison contain the same operations *)
-Theorem C20_conservative : forall io iname g A B o, wf_schemab A = true -> wf_schemab B = true ->
+Theorem C20_conservative : forall io iname g A B o, wf_schemab A = true -> wf_schemab B = true -> no_unnamed_uq B = true ->
   acc io iname (reflect_sqlite A) B o = true ->
   (In o (diff_f io iname g (reflect_sqlite A) B) <-> In o (diff g (reflect_sqlite A) B)).
-Proof. intros io iname g A B o HA HB. apply diff_f_conservative; [apply nd_schema_reflect|]; apply wf_nd_schema; auto. Qed.
+Proof. intros io iname g A B o HA HB Hu. apply diff_f_conservative; [apply nd_schema_reflect; apply wf_nd_schema|apply wf_nd_schema|apply named_of_no_unnamed]; auto. Qed.
 Print Assumptions C20_conservative.
 
 Theorem C20_decider_sound : forall i out, check_C20 i out = true -> C20_holds i out.
@@ -35,15 +35,15 @@ Print Assumptions C20_model_holds.
 Open Scope N_scope.
 Definition ex20_A : schema :=
   [mkTable 0 [mkCol 0 (mkTy 0 []) false true None true; mkCol 1 (mkTy 3 [20]) true false (Some (DLit [53])) true; mkCol 2 (mkTy 5 [10;2]) true false None true]
-             [Uq 1 [1]; Ix 2 [2;1] false] [mkFk 0 [2] 0 [0] no_opts true; mkFk 1 [1] 0 [0] no_opts true];
-   mkTable 1 [mkCol 0 (mkTy 0 []) false true None true] [] []].
+             [Uq 1 [1]; Ix 2 [2;1] false] [mkFk 0 [2] 0 [0] no_opts true; mkFk 1 [1] 0 [0] no_opts true] [];
+   mkTable 1 [mkCol 0 (mkTy 0 []) false true None true] [] [] []].
 Definition ex20_B : schema :=
   [mkTable 0 [mkCol 0 (mkTy 0 []) false true None true; mkCol 1 (mkTy 4 []) false false (Some (DExpr [39;54;39])) true; mkCol 3 (mkTy 9 []) true false None true]
-             [Ix 1 [1] true] [mkFk 3 [3] 0 [0] no_opts true];
-   mkTable 2 [mkCol 0 (mkTy 0 []) false true None true; mkCol 1 (mkTy 1 []) true false None true] [Uq 20 [1]; Ix 21 [1;0] false] [mkFk 20 [1] 0 [0] no_opts true]].
+             [Ix 1 [1] true] [mkFk 3 [3] 0 [0] no_opts true] [];
+   mkTable 2 [mkCol 0 (mkTy 0 []) false true None true; mkCol 1 (mkTy 1 []) true false None true] [Uq 20 [1]; Ix 21 [1;0] false] [mkFk 20 [1] 0 [0] no_opts true] []].
 Definition ex20_f : filt :=
   mkFilt [((NColumn 0 3, false, false), false); ((NIx 0 2, true, false), false); ((NFk 0 3, false, false), false)] true
-         [(NTable 1, false); (NUq 0 1, false); (NFk 0 1, false)] true [RTabHasCol 9; RColFam 11; RFkTo 7].
+         [(NTable 1, false); (NUq 0 1, false); (NFk 0 1, false)] true [RTabHasCol 9; RColFam 11; RFkTo 7] [1].
 Example C20_nonvacuous :
   inclass_C20 (ex20_A, ex20_B, ex20_f) = true /\
   check_C20 (ex20_A, ex20_B, ex20_f) (model_C20 (ex20_A, ex20_B, ex20_f)) = true /\
